@@ -6,9 +6,10 @@ d=$(mktemp -d /tmp/vk_seed.XXXXXX)
 git -C /repo worktree add --detach -f "$d/repo" HEAD >/dev/null 2>&1
 src=$(ls "$dir"/demo.* | head -1)
 demo="$d/$(basename "$src")"
-D="$d" perl -pe 's#/tmp/mut_(?!out)[A-Za-z0-9_]+#$ENV{D}/repo#g; s#/tmp/npvenv#/verif/.venv#g' "$src" > "$demo"
+D="$d" perl -pe 's#/tmp/mut_(?!out)[A-Za-z0-9_]+#$ENV{D}/repo#g; s#/tmp/mw_[A-Za-z0-9_]+#$ENV{D}/repo#g; s#/tmp/npvenv#/verif/.venv#g' "$src" > "$demo"
 /verif/tools/ensure_venv.sh >/dev/null 2>&1
-run_demo() { (cd "$d/repo" && PYTHONPATH="$d/repo/src" REPO_ROOT="$d/repo" timeout 600 /verif/.venv/bin/python "$demo" >/dev/null 2>&1; echo $?); }
+case "$demo" in *.sh) interp=bash;; *) interp=/verif/.venv/bin/python;; esac
+run_demo() { (cd "$d/repo" && PYTHONPATH="$d/repo/src" REPO_ROOT="$d/repo" REPO="$d/repo" PATH="/verif/.venv/bin:$PATH" timeout 600 $interp "$demo" >/dev/null 2>&1; echo $?); }
 c=$(run_demo)
 git -C "$d/repo" apply "$dir/patch.diff" || echo "PATCH FAILED"
 p=$(run_demo)
